@@ -38,6 +38,32 @@ class Box:
     pass
 
 
+class PlantBuffer(Buffer):
+    """User subclasses that override the documented initialize(env) hook and look at their own (public) configuration."""
+
+    def initialize(self, env):
+        super().initialize(env)
+        self.free_at_start = self.capacity - self.level()
+
+
+class PlantSink(Sink):
+    def initialize(self, env):
+        super().initialize(env)
+        self.count_at_start = self.received_parts_count
+
+
+class PlantBatcher(PartBatcher):
+    def initialize(self, env):
+        super().initialize(env)
+        self.size_at_start = self.output_batch_size
+
+
+class PlantCms(Cms):
+    def initialize(self, env):
+        super().initialize(env)
+        self.crew = self.maintainer.name
+
+
 class Toucher(Asset):
     """A user asset whose initialisation uses the resource manager (declares a pool and takes one unit of it)."""
 
@@ -130,7 +156,7 @@ def build(kit):
     if kit.get('off'):
         # a one-shot offset requested right after construction (before the first run for the early twin)
         o['P'].offset_next_cycle_time(kit['off'])
-    o['B'] = Buffer('B', [o['P']], kit['b_delay'], kit['b_cap'])
+    o['B'] = (PlantBuffer if kit.get('subclasses') else Buffer)('B', [o['P']], kit['b_delay'], kit['b_cap'])
     gh = PartHandler('GH', None, kit['gh_c'])
     o['GH'] = gh
     grp = Group('g', [gh])
@@ -138,8 +164,8 @@ def build(kit):
     o['Ga'] = DecisionGate('Ga', [o['GP']], partial(gate, neg=False))
     o['Gb'] = DecisionGate('Gb', [o['GP']], partial(gate, neg=True))
     o['H'] = PartHandler('H', [o['Ga'], o['Gb']], kit['h_c'])
-    o['BA'] = PartBatcher('BA', [o['H']], output_batch_size=kit['batch'])
-    o['K'] = Sink('K', [o['BA']], kit['k_c'])
+    o['BA'] = (PlantBatcher if kit.get('subclasses') else PartBatcher)('BA', [o['H']], output_batch_size=kit['batch'])
+    o['K'] = (PlantSink if kit.get('subclasses') else Sink)('K', [o['BA']], kit['k_c'])
     if kit.get('off'):
         o['K'].offset_next_cycle_time(kit['off'])
     o['E'] = PartHandler('', None, 0)       # an empty string is a name like any other
@@ -153,7 +179,7 @@ def build(kit):
     o['ps'] = PeriodicSensor(kit['iv'], [AttributeProbe('received_parts_count', o['K'])], 'ps',
                              data_capacity=INF if kit['cap'] == 'inf' else kit['cap'])
     o['os'] = OutputPartSensor(o['P'], [AttributeProbe('quality', None)], kit['n'], 'os')
-    o['cms'] = Cms(o['M'], 'cms')
+    o['cms'] = (PlantCms if kit.get('subclasses') else Cms)(o['M'], 'cms')
     o['cms'].add_sensor(o['ps'])
     return o
 
